@@ -54,6 +54,8 @@ structure M where
   pubs : Nat := 0
   inits : Nat := 0
   joins : Nat := 0
+  /-- stores of a first table into the `table` cell (lazy initialisation) -/
+  tabInits : Nat := 0
 deriving Repr
 
 /-- `rs(2^k)` as a signed integer -/
@@ -164,6 +166,12 @@ def step (ncpu : Nat) (m : M) (e : Ev) : Except String M := do
       if m.fin != some t then throw s!"thread {t} swaps the table but the finisher is {m.fin}"
       if m.next then throw "the table is swapped while next_table is still installed"
       return { m with n := 2 * m.n }
+    | .store =>
+      -- `init_table` / `try_presize` storing the first table: once, and only while there is none
+      if e.a == 0 then throw s!"thread {t} stores a null table"
+      if m.n != 0 then throw s!"thread {t} stores a fresh table over the existing {m.n}-bin table (the table was initialised twice)"
+      if m.tabInits ≥ 1 then throw s!"thread {t} stores a fresh table although one was stored before (the table was initialised twice)"
+      return { m with tabInits := m.tabInits + 1 }
     | _ => return m
 
 /-- the whole stream; returns the index of the offending access -/
